@@ -175,6 +175,22 @@ def run(cfg, w):
             w.ob_eq(f"entry{[lab[l] for l in out]}", got, want)
         # inputs untouched (also part of C15, cheap to assert here)
         w.ob("x_unchanged", all(w.same(a, b) is True or (not w.sym and a == b) for a, b in zip(np.ravel(x.values), np.ravel(X))))
+        if op in ("add", "mul", "div", "min") and out:
+            # the same operation once more in this process, on arrays over ANOTHER dimension set with the same letters and
+            # lengths but other items (historic years, then scenario years): the result carries the operands' own items
+            from flodym import FlodymArray
+
+            twin = {l: make_dim(l, n, items=[f"{l}{k + 1}bis" for k in range(n)]) for l, n in lens.items()}
+            x2 = FlodymArray(dims=make_dimset(xd, lens, twin), values=X.copy())
+            y2 = FlodymArray(dims=make_dimset(yd, lens, twin), values=Y.copy())
+            res2 = {"add": lambda: x2 + y2, "mul": lambda: x2 * y2, "div": lambda: x2 / y2, "min": lambda: x2.minimum(y2)}[op]()
+            w.ob("second_dimension_set:letters", tuple(res2.dims.letters) == tuple(out))
+            w.ob("second_dimension_set:items", all(res2.dims[l].items == twin[l].items for l in out if l in res2.dims.letters),
+                 info=str({l: res2.dims[l].items for l in res2.dims.letters}))
+            for lab in label_tuples(out, lens):
+                idx = tuple(lab[l] for l in out)
+                if np.shape(res2.values) == np.shape(res.values):
+                    w.ob(f"second_dimension_set:entry{list(idx)}", w.same(res2.values[idx], res.values[idx]) if w.sym else bool(res2.values[idx] == res.values[idx] or (res2.values[idx] != res2.values[idx])))
         return
     # ---- number operands / unary
     k = w.real("k") if op not in UNARY else None
